@@ -149,6 +149,14 @@ def run(ctx):
             rq = R.v4_header(c, now)
             cases.append(dict(config=cfg, request=rq.wire()))
             meta.append((("v4h", "valid"), cfg, rq, c[0]))
+    # a correctly signed browser form upload under every access configuration with a provider: like any other request it meets the access
+    # hook before the operation's own hook and the backend
+    for acc in ("allow", "deny", "default", "none", "deny_op:PutObject", "deny_typed:put_object"):
+        for path_ in ("/my-bucket", "/my-bucket/obj"):
+            cfg = dict(host=None, auth={S.AK: S.SK}, access=acc, route="none")
+            rq = R.post_form(now, path=path_)
+            cases.append(dict(config=cfg, request=rq.wire()))
+            meta.append((("post", "valid"), cfg, rq, "PutObject"))
     # two principals of one provider in one credential scope, interleaved within one process: each is admitted under its own name only when
     # signed with its own secret; the first principal's secret under the second principal's name is refused before any hook
     two = {S.AK: S.SK, AK2: SK2}
